@@ -1736,7 +1736,9 @@ class ExtendedToStreamDecorator(CopyStreamResult, StreamSummary, TestControl):
         if reason is not None:
             self.status(
                 file_name="reason",
-                file_bytes=reason.encode("utf8"),
+                # (Anything str() accepts is a reason, as for skipTest(); a lone
+                # surrogate is written escaped rather than failing the report.)
+                file_bytes=str(reason).encode("utf8", "backslashreplace"),
                 eof=True,
                 mime_type="text/plain; charset=utf8",
                 test_id=test_id,
